@@ -94,12 +94,23 @@ fn gen_doc(ctx: &mut Ctx, kind: Kind) -> E {
         Kind::LoadReply => {
             let r = E::new(NS, "rpc-reply").attr("message-id", "1").attr("xmlns:junos", "http://xml.juniper.net/junos/23.1R0/junos");
             let mut lr = E::new(NS, "load-configuration-results");
-            if ctx.pick(3) == 0 {
-                let es = errors(ctx);
-                let n = es.len();
-                lr = lr.kids(es).kid(E::new(NS, "load-error-count").tok(&n.to_string()));
-            } else {
-                lr.push(E::new(NS, "ok"));
+            match ctx.pick(4) {
+                0 => {
+                    let es = errors(ctx);
+                    let n = es.len();
+                    lr = lr.kids(es).kid(E::new(NS, "load-error-count").tok(&n.to_string()));
+                }
+                1 => {
+                    // what Junos sends routinely: warnings ("statement not found"), then <ok/>
+                    let n = 1 + ctx.pick(2);
+                    for i in 0..n {
+                        let mut w = gen_rpc_error(ctx, i + 1, 1);
+                        w.is_error = false;
+                        lr.push(w.to_elem());
+                    }
+                    lr.push(E::new(NS, "ok"));
+                }
+                _ => lr.push(E::new(NS, "ok")),
             }
             r.kid(lr)
         }
